@@ -6,6 +6,21 @@ props = [json.loads(l) for l in open(os.path.join(here, 'properties.jsonl'))]
 
 MC = "model_checking"
 checks = {
+ "C16": dict(
+    technique="explicit-state search over call histories (every sequence of k calls from a colliding alphabet), each history in a fresh process; differential oracle against the same call made first in a fresh process plus a deep, address-free fingerprint of every package-level variable",
+    text="All histories of length 3 (quick) / 4 (thorough) over 14 calls that collide on purpose (same pseudo root, same URLs, different content; every family of entry point; both built-in meta-schemas) run in fresh processes; every call must observe exactly what it observes as the first call of a fresh process, options and roots must be unchanged, and the package-level state after every call must equal the state after one call.",
+    note="Hidden state = package-level variables of package spec (enumerated from the type-checked tree). Runs on the instrumented build for a deterministic map order.",
+    ref="3 C16"),
+ "C17": dict(
+    technique="stateless model checking of the real code under a controlled cooperative scheduler: all schedules with <= k preemptions of 2-3 thread harnesses, scheduling points at shimmed sync operations, hooked shared accesses and pool operations; vector-clock happens-before race check and sequential-answer oracle on every schedule",
+    text="Eight harnesses (distinct roots with colliding URLs, private caches, one shared cache, shared read-only document encoded and looked up, resolve vs expand, three threads, first-ever calls racing on the lazy initialisation in fresh processes) are explored exhaustively up to 2 (quick) / 3 (thorough) preemptions; no schedule may deadlock, give a thread an answer different from its sequential answer (computed in a fresh process), contain two conflicting unordered accesses to a hooked location, or leave different package state.",
+    note="Race check covers package-level variables and map-typed struct fields accessed in package spec; other memory only through answers. Code outside package spec runs atomically between scheduling points. Which map-access sites are scheduling points is decided by a profiling execution (sites where one map is touched by two threads).",
+    ref="3 C17"),
+ "C19": dict(
+    technique="bounded-exhaustive enumeration of documents filtered by an independent validator (python jsonschema Draft-4 on the shipped schema); validity of re-encoding and of successful expansion re-checked by the same validator",
+    text="Every document of the C01 state space embedded to the Swagger root (plus referable targets and explicit $ref states) that the independent validator accepts is re-encoded and expanded by the real code; both outputs must validate again.",
+    note="python3-vt + jsonschema is the validity oracle (independent of the Go code). Known finding: an opaque-URI $ref is expanded into the whole root document.",
+    ref="3 C19"),
  "C05": dict(
     technique="exhaustive enumeration of every reference (node x location x spelling x escaping x root representation x entry point, plus dangling pointers/documents/root locations) against a reference-model resolver",
     text="Every node of a document named by hostile member names and held at six locations is addressed through every spelling of the URI part, both fragment escapings, every Resolve* entry point and every way of supplying the root (typed pointer, typed value, generic JSON, location only); the result must equal the node designated by the reference model's RFC 3986 + RFC 6901 resolution, nested $refs untouched, root unchanged; every dangling pointer, document or root location must yield an error and a nil result, also with ContinueOnError set.",
